@@ -64,3 +64,11 @@ Definition pcase (c : bool * list (pdict * provenance) * list (string * Z) * lis
   else if negb (forallb (fun kv => match ilookup (fst kv) t with Some v => Z.eqb v (snd kv) | None => false end) seen) then Some 1%nat
   else if negb (same_set seen_own (own_keys t)) then Some 2%nat
   else None.
+
+(** storing, unchanged, a partition that was itself read from a store (index [t]), e.g. returned
+    by another memento function: the own entries are stored again; the entries inherited from
+    the merge parent live only in the index and are carried over by reference iff [keep] *)
+Definition relay_index (keep : bool) (t : index) : index :=
+  fold_left (fun acc kv => iset (fst kv) (snd kv, false) acc)
+            (map (fun kv => (fst kv, fst (snd kv))) (filter (fun kv => negb (snd (snd kv))) t))
+            (if keep then filter (fun kv => snd (snd kv)) t else []).
